@@ -75,7 +75,8 @@ RULE = (
     "per-mode Loss + Interferometer; interleaved Interferometer/Loss/UniformLoss/"
     "LossyInterferometer on ordered mode subsets); PostSelectPhotons on 0..2 modes in one or "
     "two instructions, at the end or mid-circuit, any counts incl. impossible; overlap none / "
-    "scalar (atoms 0, 1) / Gram (complex, real, rank-1, identity, clustered); cutoff n+1, n+2 "
+    "scalar (atoms 0, 1) / Gram (complex, real, rank-1, identity, clustered; a fifth of the "
+    "cases: general Gram matrix on inputs mixing singly occupied and bunched modes); cutoff n+1, n+2 "
     "or inferred. Every interface the state offers is compared entry by entry with the "
     "dilation table. Non-trivial = n>=2, at least two features among {non-uniform loss, "
     "complex matrix, post-selection, overlap, marginals checked}, >=3 outcomes of the "
@@ -103,6 +104,7 @@ FLOORS = {
     "input:superposition": 0.03,
     "marginals_checked": 0.1,
     "matrix:complex": 0.4,
+    "gram_general_bunched_after_single": 0.03,
 }
 SKIP_KNOWN = bool(os.environ.get("C05_SKIP_KNOWN_REGIONS"))
 
@@ -402,6 +404,22 @@ def evaluate(case, ctx, exclude=ALL_KNOWN):
         classes.append(f"gram:{case['overlap']['sub']}")
     if conv_sensitive:
         classes.append("gram:convention-sensitive")
+    if okind == "gram" and not (in_f15 and "f15" in exclude):
+        # general Gram matrix, a bunched input mode after a singly occupied one, and the
+        # Gram block of the bunched photons differs in modulus from the block an index that
+        # was not advanced would address: the comparison with the dilation (active here)
+        # sees a normalisation taken from the wrong block
+        fq = O.first_quantized(occ0)
+        ag = np.abs(g)
+        for m in sorted(set(fq)):
+            mult, first = fq.count(m), fq.index(m)
+            if mult >= 2 and any(occ0[j] == 1 for j in range(m)):
+                right = ag[first:first + mult, first:first + mult]
+                shifted = [ag[s0:s0 + mult, s0:s0 + mult] for s0 in range(first)]
+                if any(np.abs(np.sort(right, axis=None) - np.sort(w, axis=None)).max() > 1e-3
+                       for w in shifted):
+                    classes.append("gram_general_bunched_after_single")
+                    break
     if will_marginal:
         classes.append("marginals_checked")
     if not nontrivial:
@@ -695,13 +713,21 @@ def linear_op(draw, active, kinds):
 
 
 @st.composite
-def circuit(draw, d, nps, nmax):
+def circuit(draw, d, nps, nmax, styles=("svd_li", "svd_li", "svd_user", "interleaved",
+                                        "interleaved", "lossless", "lossless")):
     """Linear ops interleaved with `nps` post-selected modes."""
     active = list(range(d))
-    style = draw(st.sampled_from(["svd_li", "svd_li", "svd_user", "interleaved", "interleaved",
-                                  "lossless", "lossless"]))
+    style = draw(st.sampled_from(list(styles)))
     ops = []
-    if style == "svd_li":
+    if style == "uniform":
+        ops.append({"op": "I", "modes": active[:], "seed": draw(st.integers(0, 2**32)),
+                    "ukind": draw(st.sampled_from(UKINDS))})
+        ops.append({"op": "UL", "modes": list(draw(st.permutations(active))),
+                    "t": draw(unit_float(0.3))})
+    elif style == "real_li":
+        ops.append({"op": "LI", "modes": active[:], "seed": draw(st.integers(0, 2**32)),
+                    "ukind": "real", "ukind2": "real", "s": draw(singular_values(d))})
+    elif style == "svd_li":
         ops.append({"op": "LI", "modes": active[:], "seed": draw(st.integers(0, 2**32)),
                     "ukind": draw(st.sampled_from(UKINDS)),
                     "ukind2": draw(st.sampled_from(UKINDS)), "s": draw(singular_values(d))})
@@ -770,11 +796,27 @@ def occupation(draw, d, n):
     return occ
 
 
+# occupied-mode patterns that mix singly occupied and bunched input modes (n = 3, 4): the
+# photon ordering / block structure of a Gram matrix only matters for these
+MIXED = [[1, 2], [2, 1], [1, 1, 2], [1, 2, 1], [2, 1, 1], [2, 2], [1, 3], [3, 1], [1, 2],
+         [1, 1, 2]]
+
+
+@st.composite
+def mixed_occupation(draw, d):
+    pattern = draw(st.sampled_from([p for p in MIXED if len(p) <= d]))
+    slots = sorted(draw(st.permutations(range(d)))[:len(pattern)])
+    occ = [0] * d
+    for m, c in zip(slots, pattern):
+        occ[m] = c
+    return occ
+
+
 @st.composite
 def main_case(draw, tier="quick"):
     d = draw(st.sampled_from([1, 2, 2, 3, 3, 3, 4, 4, 4]))
     flavour = draw(st.sampled_from(["none", "none", "none", "scalar", "scalar", "gram", "gram",
-                                    "super"]))
+                                    "gram_mixed", "gram_mixed", "super"]))
     n = draw(st.sampled_from([0, 1, 2, 2, 3, 3, 3, 4, 4]))
     nps = draw(st.sampled_from([0, 0, 1, 1, 2]))
     nps = min(nps, d - 1)
@@ -794,6 +836,21 @@ def main_case(draw, tier="quick"):
             terms.append([list(occ), [re, im]])
         inp = {"kind": "super", "terms": terms}
         nmax = max(sum(o) for o, _ in terms)
+    elif flavour == "gram_mixed":
+        # general Gram matrix (non-uniform moduli; complex or real) on an input that mixes
+        # singly occupied and bunched modes, mostly outside the region of the known
+        # loss-kernel finding (lossless / uniform loss / real matrices) so that the
+        # comparison with the dilation is active
+        d = max(d, 2)
+        nps = min(nps, d - 1)
+        occ = draw(mixed_occupation(d))
+        inp = {"kind": "number", "occ": occ}
+        nmax = sum(occ)
+        overlap = {"kind": "gram", "seed": draw(st.integers(0, 2**32)),
+                   "sub": draw(st.sampled_from(["complex", "complex", "real"])),
+                   "r": draw(st.integers(2, 3))}
+        ops = draw(circuit(d, nps, nmax, styles=("lossless", "lossless", "uniform", "uniform",
+                                                 "real_li", "svd_li", "interleaved")))
     else:
         if flavour == "gram":
             n = max(n, 1)
@@ -807,7 +864,8 @@ def main_case(draw, tier="quick"):
                        "sub": draw(st.sampled_from(["complex", "complex", "complex", "real",
                                                     "rank1", "identity", "clustered"])),
                        "r": draw(st.integers(1, 3))}
-    ops = draw(circuit(d, nps, nmax))
+    if flavour != "gram_mixed":
+        ops = draw(circuit(d, nps, nmax))
     cutoff = draw(st.sampled_from([nmax + 1, nmax + 1, nmax + 1, nmax + 2, None]))
     big = draw(st.integers(0, 39 if tier == "quick" else 9)) == 0
     return {"d": d, "input": inp, "overlap": overlap, "ops": ops, "cutoff": cutoff,
